@@ -423,6 +423,11 @@ func CalculateBestCacheSize(argb []uint32, quality int, refs *BackwardRefs, cach
 	var histoSlab []Histogram
 	if scratch != nil && cap(scratch.CacheSizeHistoSlab) >= numHistos {
 		histoSlab = scratch.CacheSizeHistoSlab[:numHistos]
+		// The slab comes from a pooled encoder: clear the counts left by the
+		// previous encode (only Literal is re-sliced and zeroed below).
+		for i := range histoSlab {
+			histoSlab[i] = Histogram{}
+		}
 	} else {
 		histoSlab = make([]Histogram, numHistos)
 		if scratch != nil {
